@@ -46,8 +46,21 @@ def Reconciled (c : Cfg) (sh : Shares.St Comp) (x x' : Xfer) : Prop :=
 def Op.requeues (k : Nat) : Op → Bool
   | .userQueue k' => k' = k
   | .meth k' m => k' = k && m = .queue
+  | .beginCall k' c _ => k' = k && c.m = .queue
   | _ => false
 
+
+/-- ops that neither call a state method of upload `k` nor release its lock (a peer's request may
+name any upload: left out) -/
+def Op.leaves (k : Nat) : Op → Bool
+  | .meth k' _ => k' ≠ k
+  | .userAbort k' => k' ≠ k
+  | .userQueue k' => k' ≠ k
+  | .beginCall k' _ _ => k' ≠ k
+  | .endCall k' => k' ≠ k
+  | .queueReq _ _ => false
+  | .xferReq _ _ => false
+  | _ => true
 
 /-- everything `Entitled` and "blocked for uploads" depend on: friends, block list, the shared
 directories (alias, share mode, users) and the indexed items -/
